@@ -24,9 +24,10 @@ package task
 //@ loop 0: invariant forall k int :: {results[k]} 0 <= k && k < $i ==> results[k].Cmd == t.Commands[k]
 //@ loop 0: decreases len(t.Commands) - $i
 
-// expandVars: text/template glue; the substitution semantics (expandTpl) is assumed.
+// expandVars: the glue around text/template is verified against the assumed contracts of
+// text/template.New / Parse / Execute (std.spec); only the substitution semantics expandTpl is assumed.
 //@ func expandVars
-//@ trusted text/template Parse/Execute
+//@ props C13
 //@ ensures result1 == nil ==> result0 == expandTpl(command, mapval(vars))
 
 // New: classification of dependency and output nodes, command expansion, verbatim name.
@@ -48,3 +49,8 @@ package task
 //@ loop 1: decreases len(t.Commands) - $i
 //@ loop 2: invariant 0 <= $i && $i <= len(t.Outputs) && globOutputs == selGlob(t.Outputs, $i) && fileOutputs == selFile(root, t.Outputs, $i) && namedOutputs == selIdent(t.Outputs, $i)
 //@ loop 2: decreases len(t.Outputs) - $i
+
+// JSON: the report is the encoding of exactly these results, in this order
+//@ func (Results).JSON
+//@ props C20
+//@ ensures result1 == nil && result0 == resultsJSON(r)
